@@ -11,7 +11,7 @@ def check(ctx):
         "Span::drop stamps end_instant with Instant::now() before submitting, SpanQueue::finish_span stamps the indexed "
         "span, start_span/add_event/Span::new stamp begin with Instant::now(); R4 Span::elapsed returns "
         "begin_instant.elapsed() under inner = Some and None otherwise; R5 open spans end at the collection time "
-        "(C17-R3); R6 a cloned RawSpan keeps its ids and both time stamps (a copy of a finished span stays finished).")
+        "(C17-R3); R6 a cloned RawSpan keeps its ids and both time stamps (a copy of a finished span stays finished); R3 also: finish_span stamps on every returning path; R7 every guard (LocalSpan, LocalParentGuard, LocalCollector) finishes its span / closes its scope on every path of its Drop.")
     ctx.not_decided = ("nesting / non-overlap of intervals and window containment: consequences of the order in which "
                        "the Instant::now() calls execute (runtime).")
     facts = ctx.facts("E")
@@ -26,3 +26,6 @@ def check(ctx):
     rule_not_recording(ctx, facts, Prov(facts))
     provrules.rule_open_spans(ctx, facts, "R5")
     provrules.rule_rawspan_copy_keeps_times(ctx, facts, "R6")
+    # a duration ends where the guard is dropped: every guard finishes its span / closes its scope on every path (also while unwinding)
+    from .. import scopes
+    scopes.rule_scope_pairing(ctx, facts, "R7")
